@@ -54,19 +54,19 @@ func configs(quick bool) []Cfg {
 		{Name: "lifecycle-per-message", CurN: 3, CurT: 2, IncN: 2, IncT: 2, SigningPeriod: 2, MaxSigningAttempt: 2, CreationPeriod: 6,
 			InitDE: 3, MaxProposals: 1, MaxReq: 0, MaxTransitionSec: 45, FeePerSigner: 10, Events: lifeMsg, Depth: 20},
 		{Name: "lifecycle-same-accounts", CurN: 2, CurT: 2, IncN: 2, IncT: 1, SameAccounts: true, SigningPeriod: 2, MaxSigningAttempt: 1, CreationPeriod: 5,
-			InitDE: 3, MaxProposals: 1, MaxReq: 1, MaxTransitionSec: 30, FeePerSigner: 10, Events: append(append([]string{}, life...), "req"), Depth: 13},
+			InitDE: 3, MaxProposals: 1, MaxReq: 1, MaxTransitionSec: 30, FeePerSigner: 10, Events: append(append([]string{}, life...), "req"), Depth: 11},
 		{Name: "two-proposals-stale-keygen", CurN: 2, CurT: 1, IncN: 2, IncT: 1, SigningPeriod: 2, MaxSigningAttempt: 1, CreationPeriod: 6,
 			InitDE: 4, MaxProposals: 2, MaxReq: 0, MaxTransitionSec: 30, FeePerSigner: 10, Events: stale, Depth: 13},
 		{Name: "handover-requests", CurN: 2, CurT: 2, IncN: 2, IncT: 1, Spare: true, SigningPeriod: 2, MaxSigningAttempt: 2, CreationPeriod: 5,
-			InitDE: 3, MaxProposals: 2, MaxReq: 2, MaxTransitionSec: 30, FeePerSigner: 10, Events: handoverT, Depth: 9},
+			InitDE: 3, MaxProposals: 2, MaxReq: 2, MaxTransitionSec: 30, FeePerSigner: 10, Events: handoverT, Depth: 7},
 		{Name: "first-group", CurN: 0, IncN: 3, IncT: 2, SigningPeriod: 2, MaxSigningAttempt: 2, CreationPeriod: 5,
-			InitDE: 0, MaxProposals: 2, MaxReq: 2, MaxTransitionSec: 30, FeePerSigner: 10, Events: boot, Depth: 12},
+			InitDE: 0, MaxProposals: 2, MaxReq: 2, MaxTransitionSec: 30, FeePerSigner: 10, Events: boot, Depth: 10},
 		{Name: "retry", CurN: 3, CurT: 2, IncN: 2, IncT: 2, SameAccounts: true, SigningPeriod: 1, MaxSigningAttempt: 3, CreationPeriod: 8,
-			InitDE: 3, MaxProposals: 1, MaxReq: 1, MaxTransitionSec: 60, FeePerSigner: 5, Events: retryT, Depth: 12},
+			InitDE: 3, MaxProposals: 1, MaxReq: 1, MaxTransitionSec: 60, FeePerSigner: 5, Events: retryT, Depth: 11},
 		{Name: "scarce-nonces", CurN: 3, CurT: 2, IncN: 2, IncT: 2, SigningPeriod: 2, MaxSigningAttempt: 2, CreationPeriod: 8,
 			InitDE: 1, MaxProposals: 1, MaxReq: 2, MaxTransitionSec: 60, FeePerSigner: 5, Events: nonce, Depth: 11},
 		{Name: "signed-handover-requests", CurN: 2, CurT: 1, IncN: 2, IncT: 2, SigningPeriod: 3, MaxSigningAttempt: 1, CreationPeriod: 8,
-			InitDE: 3, MaxProposals: 1, MaxReq: 2, MaxTransitionSec: 60, FeePerSigner: 7, Events: signedT, Depth: 11},
+			InitDE: 3, MaxProposals: 1, MaxReq: 2, MaxTransitionSec: 60, FeePerSigner: 7, Events: signedT, Depth: 8},
 		{Name: "after-a-dropped-proposal", CurN: 2, CurT: 2, IncN: 2, IncT: 1, SigningPeriod: 3, MaxSigningAttempt: 1, CreationPeriod: 4,
 			InitDE: 3, MaxProposals: 2, MaxReq: 0, MaxTransitionSec: 60, FeePerSigner: 7, Events: againT, Depth: 11},
 	}
@@ -102,7 +102,7 @@ func init() {
 			}
 			// internal caps per configuration (never an oracle): a configuration that hits its cap is
 			// reported as exhaustive:false and the next one still runs
-			per := 5 * time.Minute
+			per := 6 * time.Minute
 			if r.Quick() {
 				per = 75 * time.Second
 			}
